@@ -84,6 +84,7 @@ func c03Run(r *vt.Run, c c03Case, report bool) (points []c03Point, choices []int
 		}
 		envLeft := c.Budget
 		foreignDeleted := false
+		foreignByAcquire := false
 		var trace []string
 		// scripts run concurrently, each in its own goroutine
 		alldone := make(chan struct{})
@@ -107,6 +108,9 @@ func c03Run(r *vt.Run, c c03Case, report bool) (points []c03Point, choices []int
 								}
 								if foreignDeleted {
 									tag = "/after-a-release-deleted-anothers-lock"
+								}
+								if foreignByAcquire {
+									tag = "/after-an-acquire-deleted-anothers-lock"
 								}
 								violate("2-true-only-under-current-session"+tag, fmt.Sprintf("%s was told it holds the lock while the lock znode is owned by session %#x (its own current session is %#x); trace %v", cc.name, owner, zc.Session, trace))
 							}
@@ -153,6 +157,9 @@ func c03Run(r *vt.Run, c c03Case, report bool) (points []c03Point, choices []int
 				tag := "/plain"
 				if foreignDeleted {
 					tag = "/after-a-release-deleted-anothers-lock"
+				}
+				if foreignByAcquire {
+					tag = "/after-an-acquire-deleted-anothers-lock"
 				}
 				violate("1-at-most-one-holder"+tag, fmt.Sprintf("%v were all told they hold the lock and none has since seen a session event; trace %v", holders, trace))
 			}
@@ -217,6 +224,13 @@ func c03Run(r *vt.Run, c c03Case, report bool) (points []c03Point, choices []int
 						how := "delete-queued-across-session-change"
 						if p.ZKReq.Version == -1 {
 							how = "unconditional-delete"
+						}
+						// which API call sends the delete: a release (the recorded finding) or anything else
+						for i, cc := range cls {
+							if cc.name == p.Proc && cc.pos < len(c.Scripts[i]) && c.Scripts[i][cc.pos] != "rel" {
+								how = "deleted-by-an-" + map[string]string{"acq": "acquire"}[c.Scripts[i][cc.pos]] + "/" + how
+								foreignByAcquire = true
+							}
 						}
 						violate("3-release-never-removes-anothers-lock/"+how, fmt.Sprintf("%s deletes the lock znode (version %d) which is owned by the session of %s; trace %v", p.Proc, p.ZKReq.Version, ownerName(w, owner), trace))
 					}
